@@ -48,6 +48,7 @@ func (fr *Frame) expr(st *State, e ast.Expr) Val {
 		b := fr.expr(st, n.X)
 		if b.Ty != nil && isMap(b.Ty) {
 			k := fr.expr(st, n.Index)
+			fr.guardedMapAccess(st, n, b, "read")
 			return x.bind(x.indexVal(st, b, k, true), "mv")
 		}
 		i := fr.expr(st, n.Index)
